@@ -122,6 +122,14 @@ func checkInstalledWritersShared(p *Prog, r *Result, rule string) {
 						}
 					}
 				}
+				if why == "" {
+					// name the site by where the stream comes from, not by the function and local that happen to hold
+					// the store: a writer handed to a callback stored in a Config field keeps that name when the body
+					// of the callback moves into a helper
+					if root := callbackWriterRoot(p, info, fd, as, rhs, 0); root != "" {
+						key = fmt.Sprintf("interp#the %s of a shell is the writer handed to the %s callback: can be shared with background jobs", fv.Name(), root)
+					}
+				}
 				r.Check(why != "", rule, key, as.Pos(), why,
 					fmt.Sprintf("%s is installed as the %s of a shell at run time and is neither inherited from a Runner, nor an *os.File / *io.PipeWriter, nor io.Discard: background jobs of that shell run on copies that share the stream and write to it from their own goroutines — a data race on a plain io.Writer such as a strings.Builder, and lost output", exprString(rhs), fv.Name()))
 			}
@@ -131,4 +139,93 @@ func checkInstalledWritersShared(p *Prog, r *Result, rule string) {
 	if n == 0 {
 		r.Bad(rule, "interp#no run-time store to Runner.stdout found", runnerT.Obj().Pos(), "the rule no longer sees the stores it is about")
 	}
+}
+
+// callbackWriterRoot: the identifier is a parameter of a function literal stored under a struct field (a key of a
+// composite literal, or assigned to one): that field's name. A parameter of a declared function is followed to the
+// argument at each of its call sites in the package; all of them must agree.
+func callbackWriterRoot(p *Prog, info *types.Info, fd *ast.FuncDecl, at ast.Node, e ast.Expr, depth int) string {
+	id, ok := ast.Unparen(e).(*ast.Ident)
+	if !ok || depth > 3 {
+		return ""
+	}
+	obj := info.ObjectOf(id)
+	if obj == nil {
+		return ""
+	}
+	// a parameter of an enclosing function literal?
+	root := ""
+	var stack []ast.Node
+	ast.Inspect(fd.Body, func(n ast.Node) bool {
+		if n == nil {
+			stack = stack[:len(stack)-1]
+			return true
+		}
+		stack = append(stack, n)
+		fl, ok := n.(*ast.FuncLit)
+		if !ok || fl.Type.Params == nil || !(fl.Pos() <= at.Pos() && at.End() <= fl.End()) {
+			return true
+		}
+		for _, f := range fl.Type.Params.List {
+			for _, nm := range f.Names {
+				if info.ObjectOf(nm) == obj && len(stack) >= 2 {
+					switch par := stack[len(stack)-2].(type) {
+					case *ast.KeyValueExpr:
+						if k, ok := par.Key.(*ast.Ident); ok {
+							root = k.Name
+						}
+					case *ast.AssignStmt:
+						for i, r := range par.Rhs {
+							if r == ast.Expr(fl) && i < len(par.Lhs) {
+								if se, ok := ast.Unparen(par.Lhs[i]).(*ast.SelectorExpr); ok {
+									root = se.Sel.Name
+								}
+							}
+						}
+					}
+				}
+			}
+		}
+		return true
+	})
+	if root != "" {
+		return root
+	}
+	// a parameter of the declared function: follow the call sites
+	idx := -1
+	k := 0
+	if fd.Type.Params != nil {
+		for _, f := range fd.Type.Params.List {
+			for _, nm := range f.Names {
+				if info.ObjectOf(nm) == obj {
+					idx = k
+				}
+				k++
+			}
+		}
+	}
+	if idx < 0 {
+		return ""
+	}
+	self, _ := info.Defs[fd.Name].(*types.Func)
+	agreed, first := "", true
+	for _, cfd := range p.AllFuncDecls("interp") {
+		if cfd.Body == nil {
+			continue
+		}
+		ast.Inspect(cfd.Body, func(n ast.Node) bool {
+			c, ok := n.(*ast.CallExpr)
+			if !ok || calleeOf(info, c) != self || idx >= len(c.Args) {
+				return true
+			}
+			got := callbackWriterRoot(p, info, cfd, c, c.Args[idx], depth+1)
+			if first {
+				agreed, first = got, false
+			} else if got != agreed {
+				agreed = ""
+			}
+			return true
+		})
+	}
+	return agreed
 }
